@@ -192,6 +192,7 @@ func kindFromTrace(t Trace, kinds []int, key string) (int, bool) {
 
 // installCommonModels: clause constructors, builder writes, errors, reflect accessors.
 func (re *RuleEnv) installCommonModels() {
+	re.In.Unmodelled = reflectUnmodelled
 	in := re.In
 	in.LocalBuilders = true
 	for _, n := range []string{"valid.ParseValidNameKV", "valid.ToStr", "valid.ValidNamesSplit", "valid.newStrBuf", "valid.putStrBuf", "valid.StrEscape"} {
